@@ -227,6 +227,71 @@ VP_HARNESS(h_packet_c11)
         if (j != idx)
             vp_assert(after[j] == before[j], "C11: a Packet setter changes no other field");
 }
+// C12: what a Packet serialises as its frame header and message header, against the protocol layout (not the library's
+// header classes). PMT: message type of the packet's payload (shape): 1 data, 2 control, 3 status, 0xFF vendor-defined.
+#ifndef PMT
+#define PMT 1
+#endif
+VP_HARNESS(h_packet_raw_c12)
+{
+    Packet* p = new Packet;
+    uint8_t data[4];
+    vp_bytes(data, 4);
+    const uint8_t rawType = vp_u8();
+    vp_assume(rawType != 0);
+    p->setPayload(Payload(PayloadType(static_cast<CmpHeader::MessageType>(PMT), rawType), data, 4));
+    const uint8_t ver = vp_u8(), stream = vp_u8(), flags = vp_u8();
+    const uint16_t dev = vp_u16(), seq = vp_u16(), vendor = vp_u16();
+    const uint32_t itf = vp_u32();
+    const uint64_t ts = vp_u64();
+    // both orders of writing the two ids
+    if (vp_u8() & 1)
+    {
+        p->setInterfaceId(itf);
+        p->setVendorId(vendor);
+    }
+    else
+    {
+        p->setVendorId(vendor);
+        p->setInterfaceId(itf);
+    }
+    p->setVersion(ver);
+    p->setDeviceId(dev);
+    p->setStreamId(stream);
+    p->setSequenceCounter(seq);
+    p->setTimestamp(ts);
+    p->setCommonFlags(flags);
+    uint8_t* ch = static_cast<uint8_t*>(operator new(8));
+    uint8_t* mh = static_cast<uint8_t*>(operator new(16));
+    p->getRawCmpHeader(ch);
+    p->getRawMessageHeader(mh);
+    vp_assert(ch[0] == ver && ch[1] == 0 && vp_be16(ch + 2) == dev && ch[4] == PMT && ch[5] == stream && vp_be16(ch + 6) == seq,
+              "C12: Packet frame header: version@0, reserved@1 = 0, device id@2-3, message type@4, stream id@5, sequence counter@6-7, big-endian");
+    vp_assert(vp_be64(mh) == ts, "C12: Packet message header: timestamp@0-7 big-endian");
+#if PMT == 1
+    vp_assert(vp_be32(mh + 8) == itf, "C12: data message header: interface id@8-11 big-endian");
+#elif PMT == 3 || PMT == 0xFF
+    vp_assert(mh[8] == 0 && mh[9] == 0, "C12: status / vendor message header: bytes 8-9 are reserved and zero whatever the packet's interface id is");
+    vp_assert(vp_be16(mh + 10) == vendor, "C12: status / vendor message header: vendor id@10-11 big-endian");
+#endif
+    vp_assert(mh[12] == flags, "C12: message header: common flags@12");
+    vp_assert(mh[13] == rawType, "C12: message header: payload type@13");
+    vp_assert(vp_be16(mh + 14) == 4, "C12: message header: payload length@14-15 big-endian");
+    // reading back: a packet built from these bytes reports the same values
+    uint8_t* msg = static_cast<uint8_t*>(operator new(20));
+    for (int i = 0; i < 16; ++i)
+        msg[i] = mh[i];
+    for (int i = 0; i < 4; ++i)
+        msg[16 + i] = data[i];
+    msg[12] &= 0xB3;
+    Packet* q = new Packet(static_cast<CmpHeader::MessageType>(PMT), msg, 20);
+    vp_assert(q->getTimestamp() == ts && q->getCommonFlags() == (flags & 0xB3) && q->getPayloadLength() == 4, "C12: raw message header bytes are read back as the same values");
+#if PMT == 1
+    vp_assert(q->getInterfaceId() == itf, "C12: interface id read back from bytes 8-11");
+#elif PMT == 3 || PMT == 0xFF
+    vp_assert(q->getVendorId() == vendor, "C12: vendor id read back from bytes 10-11");
+#endif
+}
 VP_HARNESS(h_payloadtype_c11)
 {
     const uint32_t raw = vp_u32() & 0xFFFF;
